@@ -65,6 +65,7 @@ def background(formulas):
         ax += th.injection_axioms()
         ax += th.typeof_axioms(formulas)
         ax += th.pack_axioms()
+        ax += th.fnref_axioms()
         if uses(formulas, {'wref', 'referent'}):
             ax += th.weakref_axioms()
     return ax
